@@ -560,11 +560,11 @@ func histCheck(prop string, cfg histCfg, gen histGen, faultShare int, rule strin
 		ThoroughRuns: 1 << 30,
 		ThoroughTime: 10 * time.Minute,
 		Components: map[string]string{
-			"editor, Selection, Browser, Find (node/*)":                                                         "real",
+			"editor, Selection, Browser, Find (node/*)": "real",
 			"stores: nodeutil.Reflect over maps / StructOf structs, nodeutil.Node over maps / StructOf structs / hand-written types with getter-setter methods and yang tags (nacc), each optionally with pass-through hooks": "real",
-			"sources: nodeutil JSON reader, XML reader":                                                         "real",
-			"control store and model-backed source (mnode), reference model":                                    "harness",
-			"recording fault-injecting node wrapper (simnode)":                                                  "harness",
+			"sources: nodeutil JSON reader, XML reader":                      "real",
+			"control store and model-backed source (mnode), reference model": "harness",
+			"recording fault-injecting node wrapper (simnode)":               "harness",
 		},
 	}
 	c.Run = func(i int, seed uint64, tier string) RunOut {
